@@ -12,8 +12,15 @@ Barrier: after every operation the harness itself writes a marker straight to th
 (below pexpect: os.write / sendall on the raw descriptor).  The peer's report is ordered, so
 everything between two markers is what the operation in between wrote - no sleeps, and bytes
 that are lost, duplicated, added or late all show.
+
+Environment actions (the 'life' / 'await' walks of C08 / C11): the peer shuts its output side down and
+keeps reading (socket: shutdown(SHUT_WR); Popen child: SIGUSR1 makes rawpeer.py point fd 1 and 2 at
+/dev/null), the peer goes away, the caller closes the object, the peer does not read while a socket
+with a user timeout sends (the Drain thread has a gate: the peer reads only when it is told to, i.e.
+when the sender's buffer is full or the call is over - no sleeps).  Awaited reads run on the virtual
+asyncio loop of harness/vloop.py with a hand-fed read transport.
 """
-import codecs, os, pty, select, signal, socket, sys, tempfile, termios, threading, time, tty
+import asyncio, codecs, os, pty, select, signal, socket, sys, tempfile, termios, threading, time, tty
 import pexpect
 import pexpect.pty_spawn, pexpect.fdpexpect, pexpect.popen_spawn, pexpect.socket_pexpect
 from .reclog import RecLog
@@ -24,6 +31,8 @@ ENCODING = {'bytes': None, 'utf8': 'utf-8', 'utf16': 'utf-16'}
 WIRE = {'bytes': 'utf-8', 'utf8': 'utf-8', 'utf16': 'utf-16-le' if LE else 'utf-16-be'}     # one text, no BOM
 BIG_N = 300000          # > pipe buffer (64 KiB), > pty buffers, > default socket buffer (208 KiB)
 ESCAPE = b'\x1d'
+STALL_TIMEOUT = 0.05    # the user's socket timeout in the steps in which the peer does not read
+NEVER = '<<NEVER-IN-THE-OUTPUT>>'
 
 
 class Machinery(Exception):
@@ -40,16 +49,19 @@ class Drain(threading.Thread):
         self.cv = threading.Condition()
         self.eof = False
         self.stopping = False
+        self.gate = threading.Event()           # cleared: the peer does not read (it is told when to)
+        self.gate.set()
         self._wr, self._ww = os.pipe()          # wakes the thread up when it is told to stop
         self.start()
 
     def run(self):
         while not self.stopping:
             try:
+                self.gate.wait()
                 r = select.select([self.fd, self._wr], [], [], 5)[0]
                 if self.stopping or self._wr in r:
                     return
-                if not r:
+                if not r or not self.gate.is_set():
                     continue
                 d = os.read(self.fd, 1 << 18)
             except (OSError, ValueError):
@@ -115,6 +127,7 @@ class Drain(threading.Thread):
         if self._ww is None:
             return
         self.stopping = True
+        self.gate.set()
         try:
             os.write(self._ww, b'x')
         except OSError:
@@ -143,8 +156,14 @@ def _peer_argv(fifo):
 
 
 class Rig(object):
-    def __init__(self, transport, mode, logcfg, workdir, variant=0, timeout=20):
+    def __init__(self, transport, mode, logcfg, workdir, variant=0, timeout=20, sock_tmo=None, fd_kind=None):
+        """sock_tmo: 'none' | 'user' (default: by the parity of `variant`); fd_kind: 'socketpair' | 'ptymaster' (same)"""
         self.transport, self.mode, self.logcfg = transport, mode, sorted(logcfg)
+        self.sock = self.peer_sock = None
+        self.send_fd = None           # the descriptor pexpect writes to (select for writability: is its buffer full?)
+        self.loop = None              # virtual asyncio loop of the awaited reads
+        self.fifo = []                # child output (API type) that arrived / was taken in and was not yet handed to a caller
+        self.link = 'up'
         self.dir = tempfile.mkdtemp(dir=workdir)
         self.nmark = 0
         self.order = []
@@ -169,11 +188,13 @@ class Rig(object):
                 self.child.ptyproc.delayafterclose = self.child.ptyproc.delayafterterminate = 0
                 self.peer_pid = self.child.pid
                 self._raw = lambda d: _write_all(self.child.child_fd, d)
+                self.send_fd = self.child.child_fd
             else:
                 self.child = pexpect.popen_spawn.PopenSpawn([a.decode() for a in _peer_argv(fifo)], **kw)
                 self.peer_pid = self.child.proc.pid
                 fd = self.child.proc.stdin.fileno()
                 self._raw = lambda d: _write_all(fd, d)
+                self.send_fd = fd
             if self.drain.take_n(1, 20) != b'R':
                 raise Machinery('peer did not come up')
             self.out_fd = os.open('/proc/%d/fd/1' % self.peer_pid, os.O_WRONLY | (os.O_NOCTTY if transport == 'pty' else 0))
@@ -182,24 +203,29 @@ class Rig(object):
             if transport == 'pty':
                 cc = termios.tcgetattr(self.out_fd)[6]
                 self.veof, self.vintr = cc[termios.VEOF], cc[termios.VINTR]
-        elif transport == 'socket' or (transport == 'fd' and variant % 2 == 0):
+        elif transport == 'socket' or (transport == 'fd' and (fd_kind == 'socketpair' or (fd_kind is None and variant % 2 == 0))):
             a, b = socket.socketpair()
             self._keep = (a, b)
+            self.sock, self.peer_sock = a, b
+            self.send_fd = a.fileno()
             if transport == 'socket':
-                if variant % 2 == 1:
+                if sock_tmo == 'user' or (sock_tmo is None and variant % 2 == 1):
                     # a socket on which the user has set a timeout (socket.create_connection(addr, timeout=...)):
                     # Python then sends in non-blocking mode, one send() may take only part of a large payload
                     a.settimeout(30)
                     self.kind = 'socket(with timeout)'
                 self.child = pexpect.socket_pexpect.SocketSpawn(a, **kw)
-                self._raw = a.sendall
             else:
                 self.kind = 'fd(socketpair)'
                 self.child = pexpect.fdpexpect.fdspawn(a.fileno(), **kw)
-                self._raw = lambda d: _write_all(a.fileno(), d)
+            # (below pexpect, and whatever mode the socket is in: a marker must arrive also when a step left it non-blocking)
+            afd = a.fileno()
+            self._raw = lambda d: _write_all(afd, d)
+            self.sock_timeout0 = a.gettimeout()
             self.drain = Drain(b.fileno())
             self.out_fd = b.fileno()
-            self._fin.append(lambda: (a.close(), b.close()))
+            self._fin.append(lambda: _quiet(a.close))
+            self._fin.append(lambda: _quiet(b.close))
         elif transport == 'fd':
             self.kind = 'fd(pty master)'
             m, s = pty.openpty()
@@ -208,7 +234,10 @@ class Rig(object):
             self._raw = lambda d: _write_all(m, d)
             self.drain = Drain(s)
             self.out_fd = s
-            self._fin.append(lambda: (os.close(m), os.close(s)))
+            self.send_fd = m
+            self._close_m = lambda: os.close(m)
+            self._fin.append(self._close_m)
+            self._fin.append(lambda: os.close(s))
         else:
             raise ValueError(transport)
         c = self.child
@@ -262,6 +291,114 @@ class Rig(object):
         for l in self.logs.values():
             l.reset()
         del self.order[:]
+
+    # ---- the peer reads only when it is told to ----
+    def gated(self, fn, stalled=False):
+        """run the send-family call fn() with the peer not reading until the sender's buffer is full (then the call is
+        blocked - or, on a socket that was left non-blocking, has failed) or the call is over; stalled: until it is over"""
+        d = self.drain
+        if self.send_fd is None or self.link != 'up':
+            return fn()
+        d.gate.clear()
+        done = threading.Event()
+        t = None
+        if not stalled:
+            fd = self.send_fd
+
+            def watch():
+                while not done.is_set():
+                    try:
+                        if not select.select([], [fd], [], 0)[1]:
+                            break
+                    except (OSError, ValueError):
+                        break
+                    done.wait(0.0005)
+                d.gate.set()
+            t = threading.Thread(target=watch, daemon=True)
+            t.start()
+        try:
+            return fn()
+        finally:
+            done.set()
+            if t is not None:
+                t.join(10)
+            if not stalled:
+                d.gate.set()
+
+    def release(self):
+        self.drain.gate.set()
+
+    # ---- environment ----
+    def half_close(self):
+        """the peer shuts its output side down and keeps reading its input"""
+        if self.peer_sock is not None:
+            self.peer_sock.shutdown(socket.SHUT_WR)
+        elif self.transport == 'popen':
+            os.kill(self.peer_pid, signal.SIGUSR1)         # rawpeer.py: fd 1 and 2 -> /dev/null
+            os.close(self.out_fd)                          # our own handle on the child's stdout
+            self._fin = [f for f in self._fin if f is not self._close_out]
+        else:
+            raise Machinery('no half-close on %s' % self.kind)
+        self.out_fd = None
+
+    def peer_gone(self):
+        """the peer closes the connection / exits"""
+        if self.peer_sock is not None:
+            self.drain.stop()
+            self.peer_sock.close()
+        elif self.transport == 'popen':
+            self.child.proc.kill()
+            self.child.proc.wait()
+        else:
+            raise Machinery('no "peer gone" on %s' % self.kind)
+        self.link = 'gone'
+        self.stdin_open = False
+
+    def close_self(self):
+        """the caller closes the object"""
+        c = self.child
+        if self.transport == 'pty':
+            c.close(force=True)
+        elif self.transport == 'popen':
+            raise Machinery('PopenSpawn has no close()')
+        else:
+            c.close()
+            if self.kind == 'fd(socketpair)':
+                self.sock.detach()                         # fdspawn closed the descriptor: the socket object forgets it
+            elif self.kind == 'fd(pty master)':
+                self._fin = [f for f in self._fin if f is not self._close_m]
+        self.link = 'closed'
+        self.stdin_open = False
+
+    # ---- awaited reads: virtual asyncio loop, hand-fed read transport ----
+    def aloop(self):
+        if self.loop is None:
+            from .vloop import VirtualLoop
+            self.loop = VirtualLoop()
+            self.child._verif_kernel = {'data': b'', 'eof': False}
+        return self.loop
+
+    def feed(self, data):
+        """the child writes `data` (as seen by the asyncio transport)"""
+        self.aloop()
+        tr = getattr(self.child, '_verif_transport', None)
+        if tr is not None:
+            tr.arrive(data)
+        else:
+            self.child._verif_kernel['data'] += data
+
+    def arun(self, coro):
+        return self.aloop().run_until_complete(coro)
+
+    async def settle(self):
+        """let the loop do all it can do now (the reader callback of a transport that is reading)"""
+        loop = self.aloop()
+        for _ in range(50):
+            await asyncio.sleep(0)
+            await asyncio.sleep(0)
+            if not any(t.readable() or t._scheduled for t in loop.transports):
+                return
+        raise Machinery('the virtual loop does not settle')
 
     # ---- in-process interact(): an outer pty plays the user ----
     def interact(self, script):
@@ -336,6 +473,11 @@ class Rig(object):
         except Exception:
             pass
         c = self.child
+        if self.loop is not None:
+            try:
+                self.loop.close()
+            except Exception:
+                pass
         try:
             if self.transport == 'pty':
                 try:
@@ -352,7 +494,8 @@ class Rig(object):
                     pass
                 p.wait()
                 try:
-                    os.close(self.out_fd)          # our own handle on the child's stdout: the reader thread sees EOF only without it
+                    if self.out_fd is not None:
+                        os.close(self.out_fd)      # our own handle on the child's stdout: the reader thread sees EOF only without it
                 except OSError:
                     pass
                 self._fin = [f for f in self._fin if f is not self._close_out]
@@ -381,12 +524,23 @@ class Rig(object):
 def _write_all(fd, data):
     view = memoryview(data)
     while len(view):
-        n = os.write(fd, view)
+        try:
+            n = os.write(fd, view)
+        except BlockingIOError:
+            select.select([], [fd], [], 5)
+            continue
         view = view[n:]
 
 
+def _quiet(f):
+    try:
+        f()
+    except OSError:
+        pass
+
+
 # ---------------------------------------------------------------- instantiation of the model's payload classes
-def payload(cls, mode, tag):
+def payload(cls, mode, tag, big_n=BIG_N):
     """the argument handed to the API for payload class `cls` (tagged, so that a duplicated or
     reordered argument shows).  bytes mode: bytes, except 'nonascii' (and every other 'ascii'),
     which is text given in bytes mode and has to reach the peer UTF-8 encoded."""
@@ -402,7 +556,7 @@ def payload(cls, mode, tag):
         v = 'l1-%d' % tag + os.linesep + 'l2\r\n\n;'
     elif cls == 'big':
         unit = '0123456789abcdefé€'
-        v = 'big-%d:' % tag + unit * (BIG_N // len(unit)) + ';'
+        v = 'big-%d:' % tag + unit * (big_n // len(unit)) + ';'
     else:
         raise ValueError(cls)
     if mode == 'bytes':
